@@ -354,6 +354,12 @@ func c19Inbound(x *c19World, spec c19Spec, res *core.CaseResult, verbose bool) {
 	for _, ch := range []string{a, b} {
 		fix.Fund(c, common.BytesToAddress(address.Hash(fmt.Sprintf("%s/%s", transfertypes.PortID, ch), []byte(x.remote.Bech32()))).Bytes(), sdk.NewCoin(fxtypes.DefaultDenom, sdkmath.NewInt(1)))
 	}
+	// every second receiver already owns bank coins of the voucher that arrives (they are not part of the packet)
+	for i, u := range x.users {
+		if i%2 == 0 {
+			fix.Fund(c, u.Acc(), sdk.NewCoin(x.atomDenom, sdkmath.NewInt(int64(700+i))))
+		}
+	}
 	denoms := []string{"atom", "usdtx", "foreign", fxtypes.DefaultDenom, fxReturn, fxtypes.DefaultDenom}
 	for i := 0; i < spec.N; i++ {
 		u := x.users[rng.IntN(len(x.users))]
